@@ -350,7 +350,7 @@ def gen(rng, tier):
             m = [vec(rng, cc, 'rat') for _ in range(rr)]; s = _num(rng, 'rat')
             out.append(Case('mscal', "la.mscal %s %s" % (show_pts(m), fr(s)), dict(m=m, s=s)))
         else:
-            k = rng.randint(0, 30); i = rng.randint(0, k + 2)
+            k = rng.randint(0, 30); i = rng.randint(0, k + 2) if rng.random() < .85 else k + rng.randint(1, 3)
             out.append(Case('binom', "la.binom %d %d" % (k, i), dict(k=k, i=i)))
     for _ in range(20 if not thorough else 200):
         n = rng.randint(1, 6)
@@ -367,7 +367,14 @@ def gen(rng, tier):
         a = F(rng.randint(-3, 3)); bb = a + F(rng.randint(1, 9), rng.choice([1, 2, 3])); m = rng.randint(1, 30)
         if rng.random() < .3:
             a, bb = bb, a                          # a descending sequence (start > stop)
+        elif rng.random() < .08:
+            bb = a                                 # degenerate interval: correspondence only (the code returns [start])
         out.append(Case('linspace', "linspace %s %s %d" % (fr(a), fr(bb), m), dict(a=a, b=bb, m=m)))
+    # ---- frange (the other evenly spaced sequence; model function of C20, same driver line): positive steps only
+    for _ in range(12 if not thorough else 150):
+        a = F(rng.randint(-6, 6), rng.choice([1, 2, 3])); step = F(rng.randint(1, 9), rng.choice([1, 2, 3, 7]))
+        b = a + (rng.randint(1, 9) * step if rng.random() < .5 else step * F(rng.randint(0, 40), 8))
+        out.append(Case('frange', "frange %s %s %s" % (fr(a), fr(b), fr(step)), dict(a=a, b=b, step=step)))
     # ---- geometric helpers (oracle only): distance, angle, triangle centre / normal
     for _ in range(40 if not thorough else 400):
         r = rng.random()
@@ -503,6 +510,8 @@ def impl(c):
         return show_list(linalg.backward_substitution(qpts(d['U']), qs(d['y'])))
     if k == 'linspace':
         return show_list(linalg.linspace(q(d['a']), q(d['b']), d['m']))
+    if k == 'frange':
+        return show_list(list(linalg.frange(q(d['a']), q(d['b']), q(d['step']))))
     raise ValueError(k)
 
 
@@ -774,10 +783,21 @@ def oracle(c):
         if [sum(U[i][j] * x[j] for j in range(len(y))) for i in range(len(y))] != y and all(U[i][j] == 0 for i in range(len(y)) for j in range(i)):
             return "backward_substitution: U*x != y"
         return None
+    if k == 'frange':
+        a, b, step = d['a'], d['b'], d['step']
+        got = [F(fr(x)) for x in linalg.frange(q(a), q(b), q(step))]
+        want = [a]
+        while want[-1] + step / 2 < b:
+            want.append(a + len(want) * step)
+        if b > want[-1]:
+            want.append(b)
+        if got != want:
+            return "frange(%s,%s,%s) is not start + i*step up to the last value within half a step of stop, then stop" % (fr(a), fr(b), fr(step))
+        return None
     if k == 'linspace':
         a, b, m = d['a'], d['b'], d['m']
         o = [F(fr(x)) for x in linalg.linspace(q(a), q(b), m)]
-        if m >= 2 and o != [a + i * (b - a) / (m - 1) for i in range(m)]:
+        if m >= 2 and a != b and o != [a + i * (b - a) / (m - 1) for i in range(m)]:
             return "linspace is not start + i*(stop-start)/(num-1)"
         return None
     return None
